@@ -349,6 +349,10 @@ GEN_THEOREMS = {
     "C07": ("CoreDhcp.Props.GenAlloc4", ["GEN_a4_allocate_eq", "GEN_a4_toOffset_eq"]),
 }
 GEN_THEOREMS_MORE = [
+    # the argument and start-up part of setupRange regenerated (unit rangesetup): which argument goes where, the order of the tests, the lease-time test of D21
+    ("C19", "CoreDhcp.Props.GenRangeSetup", ['GEN_rangesetup_setup_eq', 'GEN_rangesetup_plugin_eq', 'RANGESETUP_accepts_iff', 'RANGESETUP_no_partial_state', 'RANGESETUP_argument_roles', 'RANGESETUP_range_wellformed', 'RANGESETUP_one_address_range_rejected', 'RANGESETUP_extra_args_ignored', 'RANGESETUP_plugin_decl', 'RANGESETUP_allocator_never_refuses']),
+    ("C02", "CoreDhcp.Props.GenRangeSetup", ['GEN_rangesetup_setup_eq', 'RANGESETUP_range_wellformed', 'RANGESETUP_accepted_starts_handler', 'RANGESETUP_accepted_serves_C02_C03']),
+    ("C03", "CoreDhcp.Props.GenRangeSetup", ['GEN_rangesetup_setup_eq', 'RANGESETUP_lease_is_kept_lease', 'RANGESETUP_accepted_lease_fits_wire', 'RANGESETUP_accepted_starts_handler', 'RANGESETUP_accepted_serves_C02_C03']),
     # setupFile of plugins/file regenerated (unit filesetup): arguments, initial load, the autorefresh watcher and its goroutine, the handlers returned
     ("C10", "CoreDhcp.Props.GenFileSetup", ['GEN_filesetup_setup_eq', 'GEN_filesetup_refresh_eq', 'GEN_filesetup_reg_eq', 'FILESETUP_watches_the_configured_name', 'FILESETUP_every_event_reloads', 'FILESETUP_failed_reload_keeps_watching', 'FILESETUP_serves_own_table', 'FILESETUP_no_autorefresh_no_watcher', 'FILESETUP_initial_load_error_aborts', 'FILESETUP_refresh_is_load', 'FILESETUP_later_good_version_picked_up', 'FILESETUP_replaced_file_is_watched_again', 'FILESETUP_watch_survives_replacements']),
     # the receive side of server/handle.go regenerated (unit serveloop): buffer pool, both Serve loops, the buffer hand-back in HandleMsg4/6
